@@ -440,8 +440,10 @@ class Histogram():
         *value* can be a *(data, context)* pair. 
         Values outside the histogram edges are ignored.
         """
-        data, self._cur_context = lena.flow.get_data_context(value)
+        data, context = lena.flow.get_data_context(value)
         self._hist.fill(data)
+        # only a value that was filled sets the current context
+        self._cur_context = context
         # filling with weight is only allowed in histogram structure
         # self._hist.fill(data, weight)
 
